@@ -70,9 +70,12 @@ def run(prop, tier, seed, repo, jobs):
     L = 10 if tier == 'quick' else 14
     locals_ = [(prop, kind, watch, L, repo) for (kind, watch) in proto.LOCAL_PLAN.get(prop, [])]
     sysq_cases = []
+    if prop == 'C20':
+        # an aggregate forwards its requesters' requests in one burst: nothing of it may be lost or block for good under queue pressure
+        sysq_cases = [('C04', ('build', 'aggregate'), 20 if tier == 'quick' else 26, 1, 240 if tier == 'quick' else 900, repo)]
     if prop in ('C04', 'C10'):
         # blocking under queue pressure (explicit relay channel, blocking sends, bounded capacities clamped to 1)
-        kks = [('build', 'build')] if tier == 'quick' else [('build', 'build'), ('build', 'aggregate'), ('aggregate', 'build'), ('build', 'service'), ('service', 'build')]
+        kks = [('build', 'build'), ('build', 'aggregate')] if tier == 'quick' else [('build', 'build'), ('build', 'aggregate'), ('aggregate', 'build'), ('build', 'service'), ('service', 'build')]
         if prop == 'C04':
             kks = [kk for kk in kks if 'service' not in kk]      # a requested service legitimately keeps the run alive
         sysq_cases = [(prop, kk, 20 if tier == 'quick' else 26, 1, 240 if tier == 'quick' else 900, repo) for kk in kks]
